@@ -357,6 +357,16 @@ def step (args : List String) : String :=
         s!"R={renderRates s'.rates} PERF={renderPerfs o.perfs} MC={renderKV s'.miss} W={renderItems "," s'.whitelist} RW={renderRewards s'.rewards} PAID={renderKVI o.paid} PV={renderKV s'.prevotes} NV={s'.votes.length} BAL={s'.balance}"
       | _, _, _, _, _, _, _ => "bad-op"
     | _, _, _, _, _, _, _ => "bad-op"
+  | "allocate" :: nextId :: total :: periods :: rest =>
+    match parseNat? nextId, parseInt? total, parseNat? periods with
+    | some nextId, some total, some periods =>
+      let sec := fun k => (section? rest k).getD "-"
+      match parseRewards (sec "RW"), parseInt? (sec "BAL") with
+      | some rw, some bal =>
+        let s' := allocateRewards { rewards := rw, balance := bal } nextId total periods
+        s!"RW={renderRewards s'.rewards} BAL={s'.balance}"
+      | _, _ => "bad-op"
+    | _, _, _ => "bad-op"
   | "slash" :: sw :: vp :: minValid :: rest =>
     match parseNat? sw, parseNat? vp, parseInt? minValid with
     | some sw, some vp, some mv =>
